@@ -118,9 +118,10 @@ class SSetOfSeq(Sym):
 class SSeq(Sym):
     """Abstract finite sequence with symbolic length.  `elem` maps a z3 Int index to a
     value (Sym or concrete) ; `member` optionally gives membership for set-derived lists."""
-    __slots__ = ("length", "elem", "name", "member", "kind", "rng")
+    __slots__ = ("length", "elem", "name", "member", "kind", "rng", "src")
 
-    def __init__(self, length, elem, name="seq", member=None, kind="list", rng=None):
+    def __init__(self, length, elem, name="seq", member=None, kind="list", rng=None, src=None):
+        self.src = src            # kind == "map-tuple": (sequence mapped over, generic index, element at that index)
         self.length = length
         self.elem = elem
         self.name = name
